@@ -755,8 +755,11 @@ def emit(doc: Document, format_options: FormatOptions | None = None) -> str:
     lines.append(f"==={doc.name}===")
 
     # Emit META if present
+    # I2: emit_meta returns "" when every META value is Absent - emit nothing then (no blank line)
     if doc.meta:
-        lines.append(emit_meta(doc.meta, format_options))
+        meta_text = emit_meta(doc.meta, format_options)
+        if meta_text:
+            lines.append(meta_text)
 
     # Emit separator if present
     if doc.has_separator:
